@@ -151,21 +151,36 @@ pub fn load_modules_with_loader(
     source: Arc<Source>,
     vm: &mut VM,
 ) -> Result<(ModuleImports, ModuleLoader)> {
-    load_modules_with_memo(stmts, entry_file, source, vm, HashMap::new())
+    let mut loader = ModuleLoader::new(entry_file, source.clone());
+    let imports = load_imports(&mut loader, stmts, source, vm)?;
+    Ok((imports, loader))
 }
 
 /// Like `load_modules_with_loader`, for a program that continues a session on the same VM (a REPL
-/// input): `loaded` are the modules earlier programs of the session loaded; they are known to the
-/// loader, so importing them again binds their exports without running their top level again.
+/// input): `loaded` are the modules earlier programs of the session initialised; they are known to
+/// the loader, so importing them again binds their exports without running their top level again.
+/// Whether loading succeeds or fails, `loaded` holds afterwards every module that is initialised by
+/// then (a module whose top level did not complete is not among them).
 pub fn load_modules_with_memo(
     stmts: &[Stmt],
     entry_file: &Path,
     source: Arc<Source>,
     vm: &mut VM,
-    loaded: HashMap<String, crate::modules::loader::ModuleInfo>,
-) -> Result<(ModuleImports, ModuleLoader)> {
+    loaded: &mut HashMap<String, crate::modules::loader::ModuleInfo>,
+) -> Result<ModuleImports> {
     let mut loader = ModuleLoader::new(entry_file, source.clone());
-    loader.loaded_modules = loaded;
+    loader.loaded_modules = std::mem::take(loaded);
+    let result = load_imports(&mut loader, stmts, source, vm);
+    *loaded = std::mem::take(&mut loader.loaded_modules);
+    result
+}
+
+fn load_imports(
+    loader: &mut ModuleLoader,
+    stmts: &[Stmt],
+    source: Arc<Source>,
+    vm: &mut VM,
+) -> Result<ModuleImports> {
     let mut module_aliases = std::collections::HashSet::new();
     let mut known_globals = std::collections::HashSet::new();
     let mut known_native_globals = std::collections::HashSet::new();
@@ -287,14 +302,11 @@ pub fn load_modules_with_memo(
         }
     }
 
-    Ok((
-        ModuleImports {
-            module_aliases,
-            known_globals,
-            known_native_globals,
-            symbol_origins,
-            next_call_site_slot: loader.next_call_site_slot,
-        },
-        loader,
-    ))
+    Ok(ModuleImports {
+        module_aliases,
+        known_globals,
+        known_native_globals,
+        symbol_origins,
+        next_call_site_slot: loader.next_call_site_slot,
+    })
 }
